@@ -43,6 +43,7 @@ def handlers(repo: Repo) -> Dict[str, List[Handler]]:
                     if len(d.args) != 1 or not isinstance(d.args[0], (ast.List, ast.Tuple)):
                         raise AnalysisError(f"{mi.rel}:{n.lineno} registration list is not a literal")
                     ops = [_op_name(x) for x in d.args[0].elts]
+                    ops = [o if o.startswith("aten.") else repo.qualify(mi, o) for o in ops]
                     out[REG_DECOS[d.func.id]].append(Handler(mi, n, ops, REG_DECOS[d.func.id]))
     return out
 
